@@ -103,7 +103,7 @@ func runC07(c *Ctx) {
 	if got := string(redact.RedactableString(startM + "x" + endM).Redact()); got != string(redact.RedactedMarker()) {
 		c.Violate("C07 marker-constants", "Redact of one envelope gives "+q(got)+", RedactedMarker() is "+q(string(redact.RedactedMarker())), nil)
 	}
-	maxLen := int(c.pick(6, 8))
+	maxLen := int(c.pick(6, 9))
 	k := int64(len(c07alpha))
 	// Exhaustive part.
 	var total int64
